@@ -166,6 +166,61 @@ def mviews_strided_vectors():
                       "format": fmt.lstrip("@<="), "ro": 1 if mv.readonly else 0, "madero": 0, "vals": vals, "elems": elems, "stable": 1, "strided": cname + "." + comp})
 
 
+def row_derived_views():
+    """Views derived from a matrix row or a variable-array row (a masked reference of the row, an alias made by the copy
+    constructor) stay valid when the matrix / variable array they came from is released."""
+    import gc
+    for cname, acls, conv in (("FloatMatrix", "FloatArray", float), ("IntMatrix", "IntArray", int), ("DoubleMatrix", "DoubleArray", float)):
+        cls, A = lookup(cname), lookup(acls)
+        if cls is None or A is None:
+            continue
+        for how in ("mask", "alias", "mask-of-alias"):
+            m = cls(3, 4)
+            for i in range(3):
+                for j in range(4):
+                    m[i][j] = conv(10 * i + j + 1)
+            mk = imath.IntArray(4)
+            for j, b in enumerate((1, 0, 1, 1)):
+                mk[j] = b
+            row = m[1]
+            v = row[mk] if how == "mask" else (A(row) if how == "alias" else A(row)[mk])
+            want = [12, 13, 14][0:0] + ([11, 13, 14] if "mask" in how else [11, 12, 13, 14])
+            del row
+            del m
+            gc.collect()
+            junk = [cls(3, 4) for _ in range(8)] + [A(16) for _ in range(8)]
+            got = [ival(v[i]) for i in range(len(v))]
+            del junk
+            emit({"e": "rowview", "cls": cname, "how": how, "want": want, "got": got})
+    for cname, acls, conv in (("VIntArray", "IntArray", int), ("VFloatArray", "FloatArray", float)):
+        cls, A = lookup(cname), lookup(acls)
+        if cls is None or A is None:
+            continue
+        for how in ("mask", "alias"):
+            sz = imath.IntArray(3)
+            for i in range(3):
+                sz[i] = 4
+            va = cls(sz, conv(0))
+            for i in range(3):
+                r_ = va[i]
+                for j in range(4):
+                    r_[j] = conv(10 * i + j + 1)
+            del r_
+            mk = imath.IntArray(4)
+            for j, b in enumerate((1, 0, 1, 1)):
+                mk[j] = b
+            row = va[1]
+            v = row[mk] if how == "mask" else A(row)
+            want = [11, 13, 14] if how == "mask" else [11, 12, 13, 14]
+            del row
+            del va
+            gc.collect()
+            junk = [A(16) for _ in range(16)]
+            got = [ival(v[i]) for i in range(len(v))]
+            del junk
+            emit({"e": "rowview", "cls": cname, "how": how, "want": want, "got": got})
+
+
 def simple_buffer_consumers():
     """A consumer that asks for a plain contiguous buffer (struct.unpack_from, bytes(), binascii, file.readinto) must not be
     handed the memory of a STRIDED array as if it were contiguous: either the request is refused (BufferError) or what the
@@ -802,6 +857,7 @@ def main():
     mviews_strided()
     mviews_strided_vectors()
     masked_components()
+    row_derived_views()
     simple_buffer_consumers()
     huge_indices()
     frombufs()
